@@ -4,6 +4,9 @@ SPEC = {
         {"name": "server", "pkg": "./internal/dnsforward/", "run": "^TestVerifC01$",
          "harness": ["dnsforward/common_*.go", "dnsforward/c01_*.go"], "race": True,
          "timeout_quick": 900, "timeout_thorough": 3400},
+        {"name": "history", "pkg": "./internal/dnsforward/", "run": "^TestVerifC01History$",
+         "harness": ["dnsforward/common_*.go", "dnsforward/c01_*.go"], "race": True,
+         "timeout_quick": 900, "timeout_thorough": 3400},
     ],
 }
 
